@@ -20,7 +20,7 @@ na = [dict(property_id=p['id'], reason=src['not_applicable'].get(p['id'], 'model
       for p in props if p['id'] not in src['checks']]
 m = dict(
     version=1,
-    setup_cmd='cd /verif/coq && coq_makefile -f _CoqProject -o Makefile && timeout 3000 make -j16',
+    setup_cmd='cd /verif/coq && coq_makefile -f _CoqProject -o Makefile && (timeout 3000 make -k -j16; true)',
     hooks=dict(guard='PROXY_PY_VERIF', enable='none needed: all instrumentation is monkey-patching from /verif/harness; no guarded source changes exist',
                baseline_off_cmd='cd /repo && /venv/bin/python -m pytest -ra -q -p no:cacheprovider --timeout=900 --continue-on-collection-errors',
                source_commits=[], add_only=True),
